@@ -39,10 +39,44 @@ def phase_variant_index(prog, name):
     return None
 
 
-def guarded_by_place(body, blk, field_rx, truth):
+def guarded_by_place(body, blk, field_rx, truth, prog=None):
     for g in body.guards(blk, select_aware=False):
         if g.atom[0] == "place" and re.search(field_rx, g.atom[1]) and g.truth is truth:
             return g
+    if prog is None:
+        return None
+    # one level of summarisation: the block lies on the "no refusal" edge (None / Ok) of a crate-local helper that refuses
+    # (returns Some(err) / Err) whenever the field has the other value
+    for g in body.guards(blk, select_aware=False):
+        if g.atom[0] != "discr" or not g.is_value(0, 2) or not re.search(r"^std::(option::Option|result::Result|ops::ControlFlow)<", g.atom[2]):
+            continue
+        org = body.value_origin({"c": "copy", "p": g.atom[3]}) if not g.atom[3]["pr"] else ("place", None)
+        call = org[1] if org[0] == "call" else None
+        if call is not None and call.declared.endswith("ops::Try::branch") and call.args:
+            o2 = body.value_origin(call.args[0])
+            call = o2[1] if o2[0] == "call" else None
+        h = prog.body(call.callee) if call is not None else None
+        if h is None:
+            continue
+        for s in range(h.n):
+            t = h.term(s)
+            if t["k"] != "switch":
+                continue
+            a, pol = h.switch_atom(s)
+            if a[0] != "place" or not re.search(field_rx, a[1]):
+                continue
+            for tb, lab in h.edges(s):
+                gg = __import__("vlib.mir", fromlist=["Guard"]).Guard(h, s, lab)
+                if gg.truth is None or gg.truth is truth:
+                    continue
+                # edge on which the field has the refused value: it must not be able to produce the no-refusal result
+                reach = h.reachable([tb])
+                lets_through = False
+                for bb, i, st in h.aggregates():
+                    if bb in reach and st["r"].get("variant") in ("None", "Ok") and st["p"]["l"] == 0:
+                        lets_through = True
+                if not lets_through:
+                    return g
     return None
 
 
@@ -86,7 +120,7 @@ def run(chk):
         # ---------------- R1
         for b, blk in by_variant.get("V2Identity", []):
             key = "%s|phase=V2Identity" % short(b.path)
-            if guarded_by_place(b, blk, r"\.security_enabled$", False):
+            if guarded_by_place(b, blk, r"\.security_enabled$", False, prog):
                 r1.ok(cfg, key, where(b, blk), "dominated by security_enabled == false")
             else:
                 r1.bad(cfg, key, where(b, blk), "the ZMTP/2.0 downgrade path sets phase=V2Identity without consulting config.security_enabled: a peer announcing revision 1 bypasses PLAIN/CURVE/Noise and its data is delivered unauthenticated")
